@@ -460,6 +460,10 @@ def abstract_exprs(seed, count):
     un = lambda x: [("opt", x), ("rep", x), ("rep_once", x), ("rep_exact", 2, x), ("rep_min", 3, x), ("rep_max", 4, x), ("rep_min_max", 1, 5, x), ("pos", x), ("neg", x), ("push", x)]
     A, B, C = ("ident", "b"), ("str", b"a"), ("ident", "ANY")
     for x in (A, B): out += un(x)
+    # every unary operator directly on every other kind of terminal (each terminal has its own arm in the reader)
+    for x in [("peek_slice", 0, 2), ("peek_slice", 1, -1), ("peek_slice", 1, None), ("peek_slice", 0, None), ("range", b"a", b"z"), ("insens", b"ab"), ("push", ("ident", "b")), ("ident", "PEEK"), ("ident", "POP")]:
+        out += un(x)[:9]
+        out += [("seq", ("rep_exact", 3, x), ("opt", x)), ("neg", ("rep_min_max", 1, 2, x))]
     # every pair of operator levels, both nestings: precedence and associativity
     for k1, k2 in itertools.product(("seq", "choice"), repeat=2):
         out += [(k1, (k2, A, B), C), (k1, A, (k2, B, C))]
